@@ -261,6 +261,92 @@ impl CrashSpec for ReorderHist {
     }
 }
 
+// ---- PA-Zip dictionary (bincode blob, no checksum) ------------------------------------------------
+
+struct DictHist;
+fn dict_state(d: &zipora::compression::dict_zip::SuffixArrayDictionary) -> Vec<u8> {
+    let mut s = (d.data().len() as u64).to_le_bytes().to_vec();
+    s.extend_from_slice(d.data());
+    for probe in [&b"quick"[..], b"lazy dog", b"zzz", b"t"] {
+        let m = d.da_match_max_length(probe);
+        s.extend_from_slice(&(m.depth as u32).to_le_bytes());
+    }
+    s
+}
+impl CrashSpec for DictHist {
+    fn name(&self) -> String {
+        "SuffixArrayDictionary: build, save_to_file, load_from_file, query".into()
+    }
+    fn describe(&self) -> String {
+        "PA-Zip dictionary trained on a 180-byte text -> save_to_file (bincode blob: text + DFA cache) -> load_from_file -> data() and 4 match queries".into()
+    }
+    fn run_history(&self, dir: &Path, rec: &mut Recorder) -> Result<(), String> {
+        use zipora::compression::dict_zip::{SuffixArrayDictionary, SuffixArrayDictionaryConfig};
+        let text = b"the quick brown fox jumps over the lazy dog. the quick brown fox jumps over the lazy dog. the quick brown fox jumps over the lazy dog. the quick brown fox jumps over the lazy dog.";
+        let mut cfg = SuffixArrayDictionaryConfig::default();
+        cfg.use_memory_pool = false;
+        cfg.min_frequency = 2;
+        let d = SuffixArrayDictionary::new(text, cfg).map_err(es)?;
+        d.save_to_file(dir.join("dict.bin")).map_err(es)?;
+        rec.sync_point(dict_state(&d));
+        Ok(())
+    }
+    fn reopen(&self, dir: &Path) -> Result<Vec<u8>, String> {
+        let d = zipora::compression::dict_zip::SuffixArrayDictionary::load_from_file(dir.join("dict.bin")).map_err(es)?;
+        Ok(dict_state(&d))
+    }
+}
+
+// ---- MmapVec<u32>: longer history with pop / clear / extend -----------------------------------------
+
+struct MmapVecHist2;
+fn mv32_state(v: &MmapVec<u32>) -> Vec<u8> {
+    let mut s = (v.len() as u64).to_le_bytes().to_vec();
+    for x in v.as_slice() {
+        s.extend_from_slice(&x.to_le_bytes());
+    }
+    s
+}
+impl CrashSpec for MmapVecHist2 {
+    fn name(&self) -> String {
+        "MmapVec<u32>: create(cap 4), extend x6 (grow twice), sync, pop, sync, clear, push, sync".into()
+    }
+    fn describe(&self) -> String {
+        "second MmapVec history: extend across two growth steps, pop, clear, push; u32 elements".into()
+    }
+    fn sector_sizes(&self, _tier: zverif::Tier) -> Vec<usize> {
+        vec![512, 64]
+    }
+    fn run_history(&self, dir: &Path, rec: &mut Recorder) -> Result<(), String> {
+        let p = dir.join("w.mmapvec");
+        let cfg = MmapVecConfig::builder().with_initial_capacity(4).build();
+        let mut v: MmapVec<u32> = MmapVec::create(&p, cfg).map_err(es)?;
+        v.sync().map_err(es)?;
+        rec.sync_point(mv32_state(&v));
+        for x in [0xA1A1_A1A1u32, 0xB2B2_B2B2, 0xC3C3_C3C3, 0xD4D4_D4D4, 0xE5E5_E5E5, 0xF6F6_F6F6] {
+            v.push(x).map_err(es)?;
+            rec.op_boundary(mv32_state(&v));
+        }
+        v.sync().map_err(es)?;
+        rec.sync_point(mv32_state(&v));
+        let _ = v.pop();
+        rec.op_boundary(mv32_state(&v));
+        v.sync().map_err(es)?;
+        rec.sync_point(mv32_state(&v));
+        v.clear().map_err(es)?;
+        rec.op_boundary(mv32_state(&v));
+        v.push(0x0707_0707).map_err(es)?;
+        rec.op_boundary(mv32_state(&v));
+        v.sync().map_err(es)?;
+        rec.sync_point(mv32_state(&v));
+        Ok(())
+    }
+    fn reopen(&self, dir: &Path) -> Result<Vec<u8>, String> {
+        let v: MmapVec<u32> = MmapVec::open(dir.join("w.mmapvec"), MmapVecConfig::default()).map_err(es)?;
+        Ok(mv32_state(&v))
+    }
+}
+
 fn main() {
     zverif::main_with("C19", |reg, _tier| {
         reg.add(Crash { spec: MmapVecHist, shim: &SHIM });
@@ -269,5 +355,7 @@ fn main() {
         reg.add(Crash { spec: ZipOffsetHist { compress: 3, checksum: 3 }, shim: &SHIM });
         reg.add(Crash { spec: ReorderHist { sign: 1 }, shim: &SHIM });
         reg.add(Crash { spec: ReorderHist { sign: -1 }, shim: &SHIM });
+        reg.add(Crash { spec: DictHist, shim: &SHIM });
+        reg.add(Crash { spec: MmapVecHist2, shim: &SHIM });
     });
 }
